@@ -999,3 +999,14 @@ func evalInt(t string) (int64, bool) {
 	}
 	return 0, false
 }
+
+// fact reports the outcome of the (normalised, ==-spelled) condition atom on this path, if it was tested.
+func (p *Path) fact(atom string) (val, known bool) {
+	for _, c := range p.Conds {
+		nc, pol := normCond(c)
+		if nc == atom {
+			return pol, true
+		}
+	}
+	return false, false
+}
